@@ -153,7 +153,7 @@ static DONE: std::sync::atomic::AtomicUsize = std::sync::atomic::AtomicUsize::ne
 static CUR_DET: std::sync::atomic::AtomicUsize = std::sync::atomic::AtomicUsize::new(0);
 static FINISHED: std::sync::atomic::AtomicBool = std::sync::atomic::AtomicBool::new(false);
 static PARTIAL: std::sync::Mutex<String> = std::sync::Mutex::new(String::new());
-const FILE_TIME_LIMIT_S: u64 = 40;
+const FILE_TIME_LIMIT_S: u64 = 120;
 
 // All files of the directory, analysed one after the other on a worker thread with a large stack (as the solstat
 // binary does).  If one file is not finished within FILE_TIME_LIMIT_S seconds the analysis is taken not to
@@ -277,7 +277,7 @@ fn prog_files(files: &[std::path::PathBuf], want_walk: bool, want_dump: bool) {
                         // sub-roots: size of the full walk from every node found
                         // the full walk from EVERY node as root is quadratic in the depth: it is left out for very large trees
                         // (the checks then compare the other entry points only)
-                        if nodes.len() <= 1500 {
+                        if nodes.len() <= 700 {
                             s.push_str("walk sub");
                             for n in &nodes {
                                 s.push_str(&format!(" {}", ast::walk_node_for_targets(&full, n.clone()).len()));
